@@ -243,6 +243,12 @@ func TestVerifC06(t *testing.T) {
 			}
 		}
 	}
+	// every entry of the published interchangeable-spelling table, one by one
+	cases = append(cases, cdesc{-2, 0, 0})
+	// a notice as the very last line of the input, without a trailing newline
+	for k := 0; k < e.pick(40, 400); k++ {
+		cases = append(cases, cdesc{-3, rr.Intn(len(docs)), k})
+	}
 	// fixed witnesses of the open findings
 	nw := len(cases)
 	cases = append(cases, cdesc{-1, 0, 0}, cdesc{-1, 0, 1}, cdesc{-1, 0, 2}, cdesc{-1, 0, 3}, cdesc{-1, 0, 4})
@@ -258,9 +264,80 @@ func TestVerifC06(t *testing.T) {
 		gen := "witness"
 		if cd.kind >= 0 {
 			gen = tfs[cd.tf]
+		} else if cd.kind == -2 {
+			gen = "spelling-table"
+		} else if cd.kind == -3 {
+			gen = "notice-at-eof"
 		}
 		e.run(idx, gen, map[string]interface{}{"base": cd.kind, "doc": cd.doc, "tf": cd.tf}, func(cs *vCase) {
 			r := cs.rng
+			if cd.kind == -2 {
+				// each listed pair, in a sentence of its own and inside a synthetic corpus
+				// document: both spellings must tokenise alike and match alike
+				var keys []string
+				for k := range interchangeableWords {
+					keys = append(keys, k)
+				}
+				sort.Strings(keys)
+				n := 0
+				for _, k := range keys {
+					v := interchangeableWords[k]
+					if strings.Contains(k, " ") {
+						continue // the table itself marks the multi-word entries as not implemented
+					}
+					for _, form := range []string{"%s", "%s,", "(%s)", "\"%s\"", "%s."} {
+						a, _, _ := vRawTokens([]byte("the quick " + fmt.Sprintf(form, k) + " brown fox"))
+						b, _, _ := vRawTokens([]byte("the quick " + fmt.Sprintf(form, v) + " brown fox"))
+						if strings.Join(a, " ") != strings.Join(b, " ") {
+							cs.violation("spelling-changes-result", "interchangeable spellings %q / %q (written %q) tokenise differently: %v vs %v", k, v, fmt.Sprintf(form, k), a, b)
+							return
+						}
+						n++
+					}
+					sc := NewClassifier(0.8)
+					doc := "permission is granted to " + v + " the work and to use the " + v + " in any form without restriction provided this notice is kept intact"
+					sc.AddContent("License", "Spell", "license.txt", []byte(doc))
+					x := vLic(sc.Match([]byte(strings.ReplaceAll(doc, v, k))))
+					y := vLic(sc.Match([]byte(doc)))
+					if len(y) != 1 || !vSame(x, y, true, 0, 0) {
+						cs.violation("spelling-changes-result", "synthetic document with %q matched as %s, with %q as %s", v, vFmt(y), k, vFmt(x))
+						return
+					}
+				}
+				e.count("spelling_table_entries", int64(n))
+				cs.nontrivial("spelling-table")
+				return
+			}
+			if cd.kind == -3 {
+				d := docs[cd.doc]
+				for len(d.raw) > 12000 {
+					d = docs[r.Intn(len(docs))]
+				}
+				body := vOOVBlock(r, 1) + vWithNL(string(d.raw)) + vOOVBlock(r, 1+r.Intn(2))
+				notice := vNoticeLine(r)
+				in0 := []byte(body)
+				in1 := []byte(body + notice) // no trailing newline
+				r0x, res1 := vLic(c.Match(in0)), c.Match(in1)
+				if !vSame(r0x, vLic(res1), true, 0, 0) {
+					cs.setInput(in1)
+					cs.violation("notice-changes-result", "a notice appended as the last line (no trailing newline) changed the licenses: %s vs %s", vFmt(r0x), vFmt(vLic(res1)))
+					return
+				}
+				line := strings.Count(body, "\n") + 1
+				found := false
+				for _, m := range vCopy(res1) {
+					if m.SL == line {
+						found = true
+					}
+				}
+				if !found {
+					cs.setInput(in1)
+					cs.violation("notice-not-reported", "notice %q as the last line %d of the input (no trailing newline) is not reported as a Copyright match: %s", notice, line, vFmt(vCopy(res1)))
+					return
+				}
+				cs.nontrivial(in1)
+				return
+			}
 			if cd.kind < 0 {
 				vC06Witness(cs, c, docs, cd.tf)
 				return
